@@ -16,12 +16,12 @@ import core
 LICS = ["MIT", "0BSD", "ISC", "Zlib", "Apache-2.0", "CC0-1.0", "GPL-3.0-or-later", "BSD-3-Clause",
         "MPL-2.0", "EUPL-1.2", "Unlicense", "AGPL-3.0-only", "LGPL-2.1-or-later", "CC-BY-4.0",
         "BSL-1.0", "Artistic-2.0", "ECL-2.0", "OFL-1.1", "PostgreSQL", "Vim", "W3C", "X11", "curl", "WTFPL"]
-PREFIX = {"bare": "", "hash": "# ", "slashes": "// ", "tight": "", "file": "# ", "filepoison": "# "}
+PREFIX = {"bare": "", "hash": "# ", "slashes": "// ", "tight": "", "file": "# ", "filepoison": "# ", "skip": "# "}
 PAD = "x" * 4200
 S, E = "REUSE-IgnoreStart", "REUSE-IgnoreEnd"  # REUSE-IgnoreStart (keeps this file lint-clean)
 
 
-def tok_text(tok: str, i: int) -> str:
+def tok_text(tok: str, i: int, plain: bool = False) -> str:
     if tok == "S":
         return S
     if tok == "E":
@@ -33,11 +33,18 @@ def tok_text(tok: str, i: int) -> str:
     if tok == "K":
         return f"SPDX-FileContributor: Contrib{i}"
     if tok == "T":
-        return f"text{i}"
+        # plain text - also when it looks like a marker in another capitalisation, or holds letters whose lower-case form
+        # is longer than the letter (U+0130)
+        if plain and i % 4 == 2:
+            # inside a licence value the third-party expression parser garbles such letters (differently for different
+            # runs of blanks): there the look-alike stays ASCII, so that full text and twin are compared on what reuse does
+            return f"Reuse-IgnoreEnd{i} Ibrahim"
+        return [f"text{i}", f"see https://reuse.software/faq/#reuse-ignorestart{i}", f"Reuse-IgnoreEnd{i} \u0130brahim \u0130nan\u00e7 \u0130\u015f\u0131k",
+                f"REUSE-IGNORESTART{i} heading"][i % 4]
     raise ValueError(tok)
 
 
-def render(toks: list, idxs: list, form: str) -> str:
+def render(toks: list, idxs: list, form: str, vis: list = None) -> str:
     """Text of the tokens with original indices idxs: tokens on a line are joined by one blank
     (form 'tight': adjacent markers touch), every line starts with the form's comment prefix.
     Form 'file': the first T token carries > 4 KiB of padding (so blocks straddle the 4096-byte window)."""
@@ -45,13 +52,21 @@ def render(toks: list, idxs: list, form: str) -> str:
     padded = next((i for i, t in enumerate(toks, 1) if t == "T"), 0) if form in ("file", "filepoison") else 0
     lines = [""]
     prev = None
+    plain, in_value = set(), False        # T tokens that end up inside a licence value once the blocks are gone
+    for i in (idxs if vis is None else vis):
+        if toks[i - 1] == "N":
+            in_value = False
+        elif toks[i - 1] == "L":
+            in_value = True
+        elif in_value:
+            plain.add(i)
     for i in idxs:
         t = toks[i - 1]
         if t == "N":
             lines.append("")
             prev = None
             continue
-        txt = tok_text(t, i) + (" " + PAD if i == padded else "")
+        txt = tok_text(t, i, i in plain) + (" " + PAD if i == padded else "")
         if prev is None:
             lines[-1] += txt
         elif form == "tight" and prev in "SE" and t in "SE":
@@ -67,7 +82,7 @@ _WS = re.compile(r"[ \t]+")
 
 def project(info, err: bool) -> dict:
     """Observation -> abstract: token index of every value read (0 = belongs to no token)."""
-    out = {"err": err, "lic": [], "cop": [], "con": [], "raw": []}
+    out = {"err": err, "lic": [], "cop": [], "con": [], "raw": [], "has": "na"}
     if err:
         return out
     for ex in info.spdx_expressions:
@@ -90,16 +105,21 @@ def project(info, err: bool) -> dict:
 def observe(text: str, toks: list) -> dict:
     from boolean.boolean import ParseError
     from license_expression import ExpressionError
-    from reuse.extract import extract_reuse_info
+    from reuse.extract import contains_reuse_info, extract_reuse_info
+    try:       # the yes/no question annotate asks ("does this text hold REUSE information?") sees the same text
+        has = "yes" if contains_reuse_info(text) else "no"
+    except Exception as exc:  # noqa: BLE001
+        has = "CRASH:" + type(exc).__name__
     try:
         info = extract_reuse_info(text)
         o = project(info, False)
     except (ExpressionError, ParseError):
-        return project(None, True)
+        return dict(project(None, True), has=has)
     except Exception as exc:  # noqa: BLE001 - whatever the code under test raises is an observation (an error), not a harness failure
         o = project(None, True)
         o["raw"] = ["CRASH:" + type(exc).__name__]
-        return o
+        return dict(o, has=has)
+    o["has"] = has
     # licence pool index -> token index (a licence token at index i uses LICS[(i-1) % n])
     lic = []
     for j in o["lic"]:
@@ -118,10 +138,10 @@ def observe_file(text: str, toks: list, poison: bool = False) -> dict:
         (d / "f.py").write_text(("# SPDX-License-Identifier: MIT OR\n" if poison else "") + text + "\n# SPDX-SnippetBegin\n")
         r = core.run_reuse(["--root", str(d), "--no-multiprocessing", "lint", "--json"])
         if r["exc"] or r["exit"] not in (0, 1):
-            return {"err": True, "lic": [], "cop": [], "con": [], "raw": ["CRASH:" + str(r["exc"] or r["exit"])[-200:]]}
+            return {"err": True, "lic": [], "cop": [], "con": [], "raw": ["CRASH:" + str(r["exc"] or r["exit"])[-200:]], "has": "na"}
         rep = json.loads(r["out"])
         files = [f for f in rep["files"] if f["path"] == "f.py"]
-        out = {"err": False, "lic": [], "cop": [], "con": [], "raw": []}
+        out = {"err": False, "lic": [], "cop": [], "con": [], "raw": [], "has": "na"}
         if not files:
             out["raw"].append("NOFILE")
             return out
@@ -142,10 +162,27 @@ def observe_file(text: str, toks: list, poison: bool = False) -> dict:
         shutil.rmtree(d, ignore_errors=True)
 
 
+def observe_skip(text: str) -> dict:
+    """`reuse annotate --skip-existing`: does the tool find REUSE information in the file?  (It says so when it skips.)"""
+    import shutil
+    d = core.scratch_dir("c12s-")
+    try:
+        (d / "f.py").write_text(text + "\n")
+        r = core.run_reuse(["--root", str(d), "annotate", "--skip-existing", "--copyright", "New Holder", "--license", "MIT", str(d / "f.py")])
+        out = {"err": False, "lic": [], "cop": [], "con": [], "raw": [], "has": "na"}
+        if r["exc"]:
+            out["has"] = "CRASH:" + str(r["exc"])[-120:]
+        else:
+            out["has"] = "yes" if "Skipped" in (r["out"] + r["err"]) else "no"
+        return out
+    finally:
+        shutil.rmtree(d, ignore_errors=True)
+
+
 def replay_case(case: dict) -> dict:
     toks, form, vis = case["toks"], case["form"], case["vis"]
-    full = render(toks, list(range(1, len(toks) + 1)), form)
-    twin = render(toks, vis, form)
+    full = render(toks, list(range(1, len(toks) + 1)), form, vis)
+    twin = render(toks, vis, form, vis)
     if case.get("many"):
         # any number of complete blocks in front changes nothing: they hide what they enclose and nothing else
         full = (PREFIX[form] + S + " hidden SPDX-License-Identifier: WTFPL " + E + "\n") * case["many"] + full
@@ -153,6 +190,8 @@ def replay_case(case: dict) -> dict:
         o, t = observe_file(full, toks, True), observe_file(twin, toks, True)
     elif form == "file":
         o, t = observe_file(full, toks), observe_file(twin, toks)
+    elif form == "skip":
+        o, t = observe_skip(full), observe_skip(twin)
     else:
         o, t = observe(full, toks), observe(twin, toks)
     return {"tid": case["tid"], "toks": toks, "form": form, "visUsed": vis, "obs": o, "twin": t,
@@ -196,6 +235,8 @@ def run(ctx: core.Ctx) -> int:
             else:
                 vis.append(i)
         form = rnd.choice(["bare", "hash", "slashes", "tight", "tight"]) if j % 4 else ("file" if j % 8 else "filepoison")
+        if j % 16 == 5:
+            form = "skip"
         if form in ("file", "filepoison") and "T" not in toks:
             toks[rnd.randrange(len(toks))] = "T"
             j2 = None
